@@ -101,6 +101,9 @@ def _canon(t: object) -> object:
 
 def run(ctx: Ctx) -> None:
     m = ctx.model
+    # execution stops exactly when the pc passes the last instruction: run() is the plain step loop (C13's rule, TOY half)
+    from .c13 import run_rule
+    run_rule(ctx, "R06.run", classes=("ToySimulation",))
     tab = toy_table(ctx)
     rows = tab["rows"]
     sim = m.cls("ToySimulation")
